@@ -3033,16 +3033,14 @@ func setExec(n *node) {
 		seen[n] = true
 		if n.tnext != nil && n.tnext.exec == nil {
 			if seen[n.tnext] {
-				m := n.tnext
-				n.tnext.exec = func(f *frame) bltn { return m.exec(f) }
+				setForwardExec(n.tnext)
 			} else {
 				set(n.tnext)
 			}
 		}
 		if n.fnext != nil && n.fnext.exec == nil {
 			if seen[n.fnext] {
-				m := n.fnext
-				n.fnext.exec = func(f *frame) bltn { return m.exec(f) }
+				setForwardExec(n.fnext)
 			} else {
 				set(n.fnext)
 			}
@@ -3051,6 +3049,18 @@ func setExec(n *node) {
 	}
 
 	set(n)
+}
+
+// setForwardExec sets the exec of n, the target of a back edge of the CFG, to a
+// closure forwarding to the exec generated later for n. The predecessors of n
+// generated in between keep this closure: it is recorded in n, to let the debugger
+// know that it executes n.
+func setForwardExec(n *node) {
+	n.exec = func(f *frame) bltn { return n.exec(f) }
+	if n.debug == nil {
+		n.debug = new(nodeDebugData)
+	}
+	n.debug.forward = n.exec
 }
 
 func typeSwichAssign(n *node) bool {
